@@ -15,7 +15,7 @@ from . import common, progs
 ID = 'C18'
 LEVEL = 'exploration'
 TIERS = {
-    'quick': {'cases': 200, 'wall': 70, 'chunk': 2},
+    'quick': {'cases': 200, 'wall': 120, 'chunk': 2},
     'thorough': {'cases': 12000, 'wall': 1500, 'chunk': 6},
 }
 BATCH = 6
